@@ -289,4 +289,28 @@ def renderString (ops : List Op) : StrOutcome :=
 /-- the chunks the VM hands to the base writer when nothing fails -/
 def chunksOf (ops : List Op) : List Chunk := (run ops (St.init ([] : List Chunk))).1.out.w
 
+/-! ## specification helpers -/
+
+/-- delete everything that happens inside captures, and the capture brackets themselves
+    (`d` = number of captures open at this point) -/
+def erase : Nat → List Op → List Op
+  | _, [] => []
+  | d, .write c :: ops => if d = 0 then .write c :: erase d ops else erase d ops
+  | d, .beginCapture _ :: ops => erase (d + 1) ops
+  | d, .endCapture :: ops => if d = 0 then .endCapture :: erase 0 ops else erase (d - 1) ops
+  | d, .enter w :: ops => .enter w :: erase d ops
+  | d, .leave :: ops => .leave :: erase d ops
+  | d, .fail id :: ops => .fail id :: erase d ops
+
+/-- no `end_capture` without a matching `begin_capture` (what the code generator guarantees) -/
+def balanced : Nat → List Op → Bool
+  | _, [] => true
+  | d, .beginCapture _ :: ops => balanced (d + 1) ops
+  | 0, .endCapture :: _ => false
+  | d + 1, .endCapture :: ops => balanced d ops
+  | d, .write _ :: ops => balanced d ops
+  | d, .enter _ :: ops => balanced d ops
+  | d, .leave :: ops => balanced d ops
+  | d, .fail _ :: ops => balanced d ops
+
 end MJ.Output
